@@ -18,7 +18,11 @@ pub fn found_from(prop: &str, scn: &Scenario, sig: &str, oracle: &str, detail: &
 }
 
 pub fn run(seed: u64, run: u64) -> Report {
-    let plan = hist::plan(seed, "C15", run, false);
+    run_prop("C15", hist::Sem::None, seed, run)
+}
+
+pub fn run_prop(prop: &'static str, sem: hist::Sem, seed: u64, run: u64) -> Report {
+    let plan = hist::plan(seed, prop, run, sem);
     let scn = plan.scenario.clone();
     let out = run_scenario(&scn, None);
     let mut probes: Vec<String> = out.stats.probes.iter().cloned().collect();
@@ -35,7 +39,7 @@ pub fn run(seed: u64, run: u64) -> Report {
         let fails = |c: &Scenario| matches!(run_scenario(c, None).violation, Some(v2) if v2.signature == sig);
         let min = lsp_min::minimise(&scn, v.at, &fails, 600);
         let v2 = run_scenario(&min, None).violation.unwrap_or_else(|| v.clone());
-        found_from("C15", &min, &v2.signature, &v2.oracle, &v2.detail)
+        found_from(prop, &min, &v2.signature, &v2.oracle, &v2.detail)
     });
     let mut counters: Vec<(String, u64)> = out.stats.counters.iter().map(|(k, v)| (k.clone(), *v)).collect();
     counters.push(("events".into(), scn.events.len() as u64));
@@ -57,6 +61,7 @@ pub fn run(seed: u64, run: u64) -> Report {
             Ev::RenameLoop { path, pos, new_name } => json!({"rename_loop": path, "pos": pos, "new_name": new_name}),
             Ev::Folder { add } => json!({"folder_added": add}),
             Ev::Checkpoint => json!("checkpoint: quiesce, compare with a fresh server"),
+            Ev::Sem { target, mode } => json!({"semantic_checkpoint": mode, "target": target, "identifier_occurrences": scn.sem.get(*target).map(|t| t.occs.values().map(|v| v.len()).sum::<usize>())}),
         }).collect::<Vec<_>>(),
         "targets": plan.targets.iter().map(|t| t.kind).collect::<Vec<_>>(),
     });
@@ -65,7 +70,12 @@ pub fn run(seed: u64, run: u64) -> Report {
         digest: out.digest,
         interleaving: digest64(out.stats.interleaving.as_bytes()),
         states: out.stats.states.clone(),
-        nontrivial: scn.events.iter().filter(|e| matches!(e, Ev::Change { .. })).count() >= 1 && out.discarded.is_none(),
+        nontrivial: out.discarded.is_none()
+            && if sem == hist::Sem::None {
+                scn.events.iter().filter(|e| matches!(e, Ev::Change { .. })).count() >= 1
+            } else {
+                out.stats.counters.get("semantic_checkpoints").copied().unwrap_or(0) >= 1
+            },
         evals: 1 + out.stats.evals,
         oracle_checks: out.stats.oracle_checks,
         sim_time_ms: out.stats.sim_time_ms,
@@ -77,7 +87,11 @@ pub fn run(seed: u64, run: u64) -> Report {
 }
 
 pub fn replay(doc: &serde_json::Value) -> Result<Option<Found>, String> {
+    replay_prop("C15", doc)
+}
+
+pub fn replay_prop(prop: &str, doc: &serde_json::Value) -> Result<Option<Found>, String> {
     let scn: Scenario = serde_json::from_value(doc["scenario"].clone()).map_err(|e| e.to_string())?;
     let out = run_scenario(&scn, None);
-    Ok(out.violation.map(|v| found_from("C15", &scn, &v.signature, &v.oracle, &v.detail)))
+    Ok(out.violation.map(|v| found_from(prop, &scn, &v.signature, &v.oracle, &v.detail)))
 }
